@@ -110,6 +110,7 @@ func (s *Server) ServeConn(c net.Conn) error {
 	sc.currentWindow = sc.maxWindow
 
 	sc.clientS.Reset()
+	sc.peerMaxFrame = sc.clientS.MaxFrameSize()
 
 	sc.st.Reset()
 	sc.st.SetMaxWindowSize(uint32(sc.maxWindow))
